@@ -1,9 +1,10 @@
 import DirectVerif.Driver.C04
 import DirectVerif.Model.C06Seed
+import DirectVerif.Model.C06Crop
 /-! C06 shares the line-protocol interpreter of `Model/MaskGeom.lean` with C04 and adds the object machine of
 `Model/C06Seed.lean` (`acs_hist`) and the exact float glue of `Model/C06Round.lean` (`num_low`, `fl53`). -/
 namespace DirectVerif.Driver.C06
-open DirectVerif DirectVerif.Driver DirectVerif.MaskGeom DirectVerif.C06Seed DirectVerif.C06Round
+open DirectVerif DirectVerif.Driver DirectVerif.MaskGeom DirectVerif.C06Seed DirectVerif.C06Round DirectVerif.C06Crop
 
 /-- `cfNum cfDen accNum accDen (rows cols radius)*` -/
 def pairOf (g : List Int) : Option PairCfg :=
@@ -60,6 +61,12 @@ def step (op : String) (gs : List (List Int)) : String :=
     let p := fl53 num.toNat den.toNat
     let g := Nat.gcd p.1 p.2
     okG [[Int.ofNat (p.1 / g), Int.ofNat (p.2 / g)], [Int.ofNat (roundHalfEven p.1 p.2), Int.ofNat (truncQ p.1 p.2)]]
+  -- `poisson_crop rows cols radius crop | packed raster rows`: one VD-Poisson frame as the code assembles it now,
+  -- and whether the ACS disc is a subset of it
+  | "poisson_crop", [[rows, cols, radius, crop], packed] =>
+    let raster := (packed.map (C04.unpack cols.toNat)).flatten
+    let m := poissonFrame (crop != 0) rows.toNat cols.toNat radius raster
+    okG [(chunksOf cols.toNat m).map C04.pack, [b2i (subsetB (centeredDisk rows.toNat cols.toNat radius) m)]]
   | _, _ => DirectVerif.Driver.C04.step op gs
 
 end DirectVerif.Driver.C06
